@@ -381,7 +381,11 @@ def run_disk(case, ctx, res):
         if r.escaped:
             res.violation("escaped-exception", f"{r.exc_type} left main()", tb=r.exc_tb)
             return
-        data = json.loads(r.stdout)
+        try:
+            data = json.loads(r.stdout)
+        except ValueError:
+            res.violation("lint-gives-no-report", f"lint --json exit {r.exit_code} without a report", **r.brief())
+            return
         by = {f["path"]: f for f in data["files"]}
         for name, (exp, desc, blob) in expected.items():
             res.n += 1
